@@ -153,6 +153,10 @@ func randomCase(rng *rand.Rand, prop string) *Case {
 		if rng.Intn(25) == 0 {
 			c.Msgs[i].From = ""
 		}
+		if rng.Intn(12) == 0 {
+			c.Msgs[i] = MsgSpec{Kind: 'N', Enc: 'q'}
+			continue
+		}
 		if rng.Intn(25) == 0 {
 			c.Msgs[i].Rcpts = nil
 		}
@@ -520,6 +524,49 @@ func generate(r *hx.Run, prop string) []*Case {
 			c.Prog = "conc"
 			c.Msgs[0].Kind, c.Msgs[0].K, c.Msgs[0].Body = v.kind, 9, bodies[2]
 			add(c)
+		}
+	}
+	// nil entries in the batch (first, middle, last, several, only nils), followed by a message that fails - producer
+	// failure or a rejected MAIL / RCPT / DATA / end-of-data - for every program
+	nilSpec := MsgSpec{Kind: 'N', Enc: 'q'}
+	withNils := func(c *Case, pattern string) *Case { // pattern: 'N' = nil entry, 'm' = the next real message
+		d := *c
+		d.Msgs = nil
+		k := 0
+		for _, ch := range pattern {
+			if ch == 'N' {
+				d.Msgs = append(d.Msgs, nilSpec)
+			} else if k < len(c.Msgs) {
+				d.Msgs = append(d.Msgs, c.Msgs[k])
+				k++
+			}
+		}
+		return &d
+	}
+	for _, pattern := range []string{"Nmm", "mNm", "mmN", "NNmm", "NmNm", "N", "NN", "mNNm"} {
+		for _, prog := range []string{"das", "dasn", "send", "reset", "two", "conc"} {
+			c := base(2, 2, 'q', allCaps, nil)
+			c.Prog = prog
+			add(withNils(c, pattern))
+			for k := 0; k < 2; k++ { // the k-th real message fails
+				cw := base(2, 2, 'n', allCaps, nil)
+				cw.Prog = prog
+				cw.Msgs[k].Kind, cw.Msgs[k].K = 'w', 6
+				add(withNils(cw, pattern))
+			}
+			if prog == "das" || prog == "send" {
+				enumScripts(16, 1, negDev[:2], func(sc []smtpx.Decision) {
+					cd := base(2, 1, 'q', allCaps, sc)
+					cd.Prog = prog
+					add(withNils(cd, pattern))
+				})
+			} else {
+				for _, p := range []int{3, 4, 5, 6, 9, 10, 11, 12} {
+					cd := base(2, 1, 'q', allCaps, scriptWith(map[int]string{p: negDev[1]}))
+					cd.Prog = prog
+					add(withNils(cd, pattern))
+				}
+			}
 		}
 	}
 	// the other entry points (same oracles): DialAndSend, Dial+Send+Close, Send/Reset/Send, two smtp.Clients of one Client
